@@ -32,6 +32,10 @@ type WebsocketConnection struct {
 	// internal handling of closed connections
 	connectionClosed bool
 
+	// the connection is being closed by CloseDataConnection
+	// errors from now on are a consequence of that and are not reported
+	closingLocally bool
+
 	// the error message received for the closed connection
 	connectionClosedError error
 
@@ -69,6 +73,20 @@ func (w *WebsocketConnection) connClosedError() error {
 	defer w.muxConnClosed.Unlock()
 
 	return w.connectionClosedError
+}
+
+func (w *WebsocketConnection) setClosingLocally() {
+	w.muxConnClosed.Lock()
+	defer w.muxConnClosed.Unlock()
+
+	w.closingLocally = true
+}
+
+func (w *WebsocketConnection) isClosingLocally() bool {
+	w.muxConnClosed.Lock()
+	defer w.muxConnClosed.Unlock()
+
+	return w.closingLocally
 }
 
 // check if the websocket connection is closed
@@ -162,8 +180,9 @@ func (w *WebsocketConnection) readShipPump() {
 			}
 
 			message, err := w.readWebsocketMessage()
-			// ignore read errors if the connection got closed
-			if w.isConnClosed() {
+			// ignore read errors if the connection got closed or is being closed by us
+			// (e.g. the remote answering our close message)
+			if w.isConnClosed() || w.isClosingLocally() {
 				return
 			}
 
@@ -273,7 +292,7 @@ func (w *WebsocketConnection) writeMessage(messageType int, data []byte) bool {
 	if err != nil {
 		// ignore write errors if the connection got closed
 		// or is being closed by us (the close message has already been sent)
-		if w.isConnClosed() || errors.Is(err, websocket.ErrCloseSent) {
+		if w.isConnClosed() || w.isClosingLocally() || errors.Is(err, websocket.ErrCloseSent) {
 			return false
 		}
 
@@ -299,6 +318,8 @@ func (w *WebsocketConnection) writeMessageWithoutErrorHandling(messageType int, 
 
 // shutdown the connection and all internals
 func (w *WebsocketConnection) CloseDataConnection(closeCode int, reason string) {
+	w.setClosingLocally()
+
 	// send a close message to the remote side if we have a reason
 	if reason != "" {
 		if !w.isConnClosed() {
